@@ -1,4 +1,5 @@
 SPECIFICATION TraceSpec
+CONSTANT Cap = 250
 CONSTRAINT Progress
 POSTCONDITION TraceAccepted
 CHECK_DEADLOCK FALSE
